@@ -66,6 +66,11 @@ var items = []item{
 	{"nested2-stream-error", `<message><a>` + se + `</a></message>`, kElemBad},
 	{"nested1-restart", `<message><stream:stream/></message>`, kElemBad},
 	{"nested2-stream-other", `<message><a><stream:features/></a></message>`, kElemBad},
+	// requests nobody answers (the session adds its own error reply) whose
+	// unread part holds a stream-level construct
+	{"iq-get-nested-comment", `<iq type='get' id='q1' from='juliet@example.com/r'><q xmlns='urn:q'/><!-- c --><x xmlns='urn:x'/></iq>`, kElemBad},
+	{"iq-get-nested2-comment", `<iq type='get' id='q3' from='juliet@example.com/r'><q xmlns='urn:q'><!-- c --></q><x xmlns='urn:x'/></iq>`, kElemBad},
+	{"iq-set-nested-stream-error", `<iq type='set' id='q2' from='juliet@example.com/r'><q xmlns='urn:q'/>` + se + `<x xmlns='urn:x'/></iq>`, kElemBad},
 }
 
 type invocation struct {
@@ -129,7 +134,7 @@ func body(maxItems int) nd.Body {
 				return nd.Result{Skip: true}
 			}
 		}
-		prog := c.Choose(7, "handler-program")
+		prog := c.Choose(8, "handler-program")
 		var names []string
 		var input strings.Builder
 		for _, it := range seq {
@@ -151,7 +156,7 @@ func body(maxItems int) nd.Body {
 		var invs []invocation
 		handler := xmpp.HandlerFunc(func(t xmlstream.TokenReadEncoder, start *xml.StartElement) error {
 			inv := invocation{start: xu.TokString([]xml.Token{*start})}
-			want := []int{0, 1, 1 << 20, 1 << 20, 2, 1 << 20, 1 << 20}[prog]
+			want := []int{0, 1, 1 << 20, 1 << 20, 2, 1 << 20, 1 << 20, 1}[prog]
 			var rerr error
 			for i := 0; i < want; i++ {
 				tok, err := t.Token()
@@ -193,6 +198,11 @@ func body(maxItems int) nd.Body {
 			if prog == 5 || prog == 6 {
 				return nil // swallows read errors
 			}
+			if prog == 7 && rerr == nil {
+				// reads one token and fails with an error that wraps io.EOF: the
+				// session ends with an error, it is not the peer's closing tag
+				return fmt.Errorf("handler: short payload: %w", io.EOF)
+			}
 			return rerr
 		})
 		var serveErr error
@@ -216,6 +226,11 @@ func body(maxItems int) nd.Body {
 				}
 				want = append(want, invocation{start: st, toks: rest})
 				if it.kind == kElemBad {
+					wantEnd = "error"
+					stop = true
+				}
+				if prog == 7 {
+					// the handler fails on the first element it is given
 					wantEnd = "error"
 					stop = true
 				}
@@ -250,7 +265,7 @@ func body(maxItems int) nd.Body {
 			if g.pastEnd != "" {
 				return fail("handler:reads-past-end", "invocation %d: %s", i, g.pastEnd)
 			}
-			limit := []int{0, 1, 1 << 20, 1 << 20, 2, 1 << 20, 1 << 20}[prog]
+			limit := []int{0, 1, 1 << 20, 1 << 20, 2, 1 << 20, 1 << 20, 1}[prog]
 			exp := w.toks
 			if len(exp) > limit {
 				exp = exp[:limit]
